@@ -114,7 +114,7 @@ def run(ctx):
                 continue
             edges = sel.edge_nodes()
             c = F.edge_cond(sel, edges[a]) if a in edges else (F.edge_cond(sel, edges[bnode]) if bnode in edges else None)
-            is_none = c is not None and c.kind == 'disc' and c.value == 0 and L.mentions_next(c.expr) is not None
+            is_none = c is not None and c.kind == 'disc' and c.variant_is(0) and L.mentions_next(c.expr) is not None
             if not is_none:
                 bad.append((a, bnode))
         ctx.ob('ROUND', 'exit-only-on-exhaustion', not bad, sel.where(sel.line_of_block(F.block_of_node(sel, bad[0][0])) if bad else None),
@@ -210,7 +210,7 @@ def body_entries_after_next(sel, h, nodes):
     for n, e in sel.edge_nodes().items():
         if n in nodes:
             c = F.edge_cond(sel, e)
-            if c.kind == 'disc' and c.value == 1 and L.mentions_next(c.expr) is not None:
+            if c.kind == 'disc' and c.variant_is(1) and L.mentions_next(c.expr) is not None:
                 out.append(n)
     if not out:
         succg, _, _ = sel.cfg()
